@@ -11,7 +11,7 @@ CHECKS = {
    note="Backend selection by seccomp ENOSYS on the library thread (verified per case by a probe); differences must reproduce in 4 runs because openat2 fails spuriously under system-wide mount/rename activity; >40 traversals and flag sets the kernel rejects are outside the domain; tmpfs only.",
    technique="property-based differential testing (proptest) across two seccomp-selected kernel configurations"),
  "C05": dict(level="exploration", ref="DESIGN.md §3 C05, §2.6",
-   text="Every system call the library thread issues inside generated calls (all operations, Rust and C API, six kernel configurations, cold start) is reported by a seccomp user-notification supervisor with what its dirfd refers to, and judged by an explicit discipline predicate (single component, never followed, fixed RESOLVE masks, literal white-list for AT_FDCWD/absolute shapes, close-on-exec requested and observed, O_NOCTTY, no legacy syscalls). Covers the executions generated, not all executions.",
+   text="Every system call the library thread issues inside generated calls (all operations, Rust and C API, six kernel configurations, cold start) is reported by a seccomp user-notification supervisor with what its dirfd refers to, and judged by an explicit discipline predicate (single component, never followed, fixed RESOLVE masks, literal white-list for AT_FDCWD/absolute shapes, close-on-exec requested and observed, O_NOCTTY, no legacy syscalls). A second driver repeats workloads with one failing system call (EINTR, EAGAIN, ENOMEM, EMFILE, EIO, ENOSYS at a selected index) and judges the error-path execution by the same predicate. Covers the executions generated, not all executions.",
    note="Sees only syscalls in the filter table (all path-taking and fd-creating calls incl. legacy spellings); dirfd classification is the supervisor's fstat/fstatfs at call time; white-list is literal and printed in evidence.",
    technique="trace-invariant checking over generated workloads (proptest + seccomp user-notification observer)"),
  "C11": dict(level="exploration", ref="DESIGN.md §3 C11",
